@@ -28,3 +28,57 @@ package linear
 //@   ensures [C02,C14] round: v > 0 && v < 1 ==> abs(float64(result) - float64(v)*65535) <= 0.5 + 0x1p-8
 //@   ensures [C02] nan-total: isnan(v) ==> result == 0
 //@ lemma [C02] q16-mono mode=rnd (a float32, b float32): a <= b ==> NormalisedTo16Bit(a) <= NormalisedTo16Bit(b)
+
+// ---- C10/C11: image transform workers ----
+// Per-iteration (step) contracts: each iteration writes exactly the footprint of its destination
+// pixel with the transformed source pixel, and the loops visit row Min.Y+workerNum, +workerCount, ...
+// and every column of the row. A-IMG (PixOffset inside Pix for points of Rect) is an assumed contract.
+// Captured variables: bounds (source bounds), dstOffsetX/Y, src/srcImg, dstImg, transformColor.
+
+//@ func TransformImageColor$1
+//@   requires workers: 0 <= workerNum && workerNum < workerCount && workerCount <= 0x10000
+//@   requires dst-covers-src: dstOffsetX == dstImg.Rect.Min.X - bounds.Min.X && dstOffsetY == dstImg.Rect.Min.Y - bounds.Min.Y && bounds.Max.X - bounds.Min.X <= dstImg.Rect.Max.X - dstImg.Rect.Min.X && bounds.Max.Y - bounds.Min.Y <= dstImg.Rect.Max.Y - dstImg.Rect.Min.Y
+//@   requires sane-coordinates: -0x40000000 <= bounds.Min.X && bounds.Min.X <= bounds.Max.X && bounds.Max.X <= 0x40000000 && -0x40000000 <= bounds.Min.Y && bounds.Min.Y <= bounds.Max.Y && bounds.Max.Y <= 0x40000000 && -0x40000000 <= dstImg.Rect.Min.X && dstImg.Rect.Min.X <= dstImg.Rect.Max.X && dstImg.Rect.Max.X <= 0x40000000 && -0x40000000 <= dstImg.Rect.Min.Y && dstImg.Rect.Min.Y <= dstImg.Rect.Max.Y && dstImg.Rect.Max.Y <= 0x40000000
+//@   requires bounds-is-src: bounds.Min.X == srcImg.Rect.Min.X && bounds.Min.Y == srcImg.Rect.Min.Y && bounds.Max.X == srcImg.Rect.Max.X && bounds.Max.Y == srcImg.Rect.Max.Y
+//@   loop 1 invariant [C10,C11] rows-of-this-worker: bounds.Min.Y + workerNum <= i && (iter == 0 ==> i == bounds.Min.Y + workerNum)
+//@   loop 1 step [C10,C11] next-row-of-this-worker: i == prev(i) + workerCount
+//@   loop 1 decreases bounds.Max.Y + workerCount - i
+//@   loop 2 invariant [C10,C11] columns: bounds.Min.X <= j && j <= bounds.Max.X
+//@   loop 2 step [C10] pixel-written: be16(dstImg.Pix, dstImg.PixOffset(prev(j) + dstOffsetX, i + dstOffsetY)) == transformColor(prev(srcImg.RGBA64At(j, i))).R && be16(dstImg.Pix, dstImg.PixOffset(prev(j) + dstOffsetX, i + dstOffsetY) + 2) == transformColor(prev(srcImg.RGBA64At(j, i))).G && be16(dstImg.Pix, dstImg.PixOffset(prev(j) + dstOffsetX, i + dstOffsetY) + 4) == transformColor(prev(srcImg.RGBA64At(j, i))).B && be16(dstImg.Pix, dstImg.PixOffset(prev(j) + dstOffsetX, i + dstOffsetY) + 6) == transformColor(prev(srcImg.RGBA64At(j, i))).A
+//@   loop 2 step [C10,C11] only-that-pixel: forall o int :: o < dstImg.PixOffset(prev(j) + dstOffsetX, i + dstOffsetY) || o >= dstImg.PixOffset(prev(j) + dstOffsetX, i + dstOffsetY) + 8 ==> dstImg.Pix[o] == prev(dstImg.Pix[o])
+//@   loop 2 step [C10] next-column: j == prev(j) + 1
+//@   loop 2 decreases bounds.Max.X - j
+//@   ensures [C10] returns: true
+
+//@ func TransformImageColor$2
+//@   requires workers: 0 <= workerNum && workerNum < workerCount && workerCount <= 0x10000
+//@   requires dst-covers-src: dstOffsetX == dstImg.Rect.Min.X - bounds.Min.X && dstOffsetY == dstImg.Rect.Min.Y - bounds.Min.Y && bounds.Max.X - bounds.Min.X <= dstImg.Rect.Max.X - dstImg.Rect.Min.X && bounds.Max.Y - bounds.Min.Y <= dstImg.Rect.Max.Y - dstImg.Rect.Min.Y
+//@   requires sane-coordinates: -0x40000000 <= bounds.Min.X && bounds.Min.X <= bounds.Max.X && bounds.Max.X <= 0x40000000 && -0x40000000 <= bounds.Min.Y && bounds.Min.Y <= bounds.Max.Y && bounds.Max.Y <= 0x40000000 && -0x40000000 <= dstImg.Rect.Min.X && dstImg.Rect.Min.X <= dstImg.Rect.Max.X && dstImg.Rect.Max.X <= 0x40000000 && -0x40000000 <= dstImg.Rect.Min.Y && dstImg.Rect.Min.Y <= dstImg.Rect.Max.Y && dstImg.Rect.Max.Y <= 0x40000000
+//@   loop 1 invariant [C10,C11] rows-of-this-worker: bounds.Min.Y + workerNum <= i && (iter == 0 ==> i == bounds.Min.Y + workerNum)
+//@   loop 1 step [C10,C11] next-row-of-this-worker: i == prev(i) + workerCount
+//@   loop 1 decreases bounds.Max.Y + workerCount - i
+//@   loop 2 invariant [C10,C11] columns: bounds.Min.X <= j && j <= bounds.Max.X
+//@   loop 2 step [C10] pixel-written: be16(dstImg.Pix, dstImg.PixOffset(prev(j) + dstOffsetX, i + dstOffsetY)) == transformColor(src.At(prev(j), i)).R && be16(dstImg.Pix, dstImg.PixOffset(prev(j) + dstOffsetX, i + dstOffsetY) + 2) == transformColor(src.At(prev(j), i)).G && be16(dstImg.Pix, dstImg.PixOffset(prev(j) + dstOffsetX, i + dstOffsetY) + 4) == transformColor(src.At(prev(j), i)).B && be16(dstImg.Pix, dstImg.PixOffset(prev(j) + dstOffsetX, i + dstOffsetY) + 6) == transformColor(src.At(prev(j), i)).A
+//@   loop 2 step [C10,C11] only-that-pixel: forall o int :: o < dstImg.PixOffset(prev(j) + dstOffsetX, i + dstOffsetY) || o >= dstImg.PixOffset(prev(j) + dstOffsetX, i + dstOffsetY) + 8 ==> dstImg.Pix[o] == prev(dstImg.Pix[o])
+//@   loop 2 step [C10] next-column: j == prev(j) + 1
+//@   loop 2 decreases bounds.Max.X - j
+//@   ensures [C10] returns: true
+
+//@ func TransformImageColor$3
+//@   requires workers: 0 <= workerNum && workerNum < workerCount && workerCount <= 0x10000
+//@   requires dst-covers-src: dstOffsetX == dstImg.Rect.Min.X - bounds.Min.X && dstOffsetY == dstImg.Rect.Min.Y - bounds.Min.Y && bounds.Max.X - bounds.Min.X <= dstImg.Rect.Max.X - dstImg.Rect.Min.X && bounds.Max.Y - bounds.Min.Y <= dstImg.Rect.Max.Y - dstImg.Rect.Min.Y
+//@   requires sane-coordinates: -0x40000000 <= bounds.Min.X && bounds.Min.X <= bounds.Max.X && bounds.Max.X <= 0x40000000 && -0x40000000 <= bounds.Min.Y && bounds.Min.Y <= bounds.Max.Y && bounds.Max.Y <= 0x40000000 && -0x40000000 <= dstImg.Rect.Min.X && dstImg.Rect.Min.X <= dstImg.Rect.Max.X && dstImg.Rect.Max.X <= 0x40000000 && -0x40000000 <= dstImg.Rect.Min.Y && dstImg.Rect.Min.Y <= dstImg.Rect.Max.Y && dstImg.Rect.Max.Y <= 0x40000000
+//@   loop 1 invariant [C10,C11] rows-of-this-worker: bounds.Min.Y + workerNum <= i && (iter == 0 ==> i == bounds.Min.Y + workerNum)
+//@   loop 1 step [C10,C11] next-row-of-this-worker: i == prev(i) + workerCount
+//@   loop 1 decreases bounds.Max.Y + workerCount - i
+//@   loop 2 invariant [C10,C11] columns: bounds.Min.X <= j && j <= bounds.Max.X
+//@   loop 2 step [C10] pixel-written: dstImg.Pix[dstImg.PixOffset(prev(j) + dstOffsetX, i + dstOffsetY)] == uint8(transformColor(src.At(prev(j), i)).R >> 8) && dstImg.Pix[dstImg.PixOffset(prev(j) + dstOffsetX, i + dstOffsetY) + 1] == uint8(transformColor(src.At(prev(j), i)).G >> 8) && dstImg.Pix[dstImg.PixOffset(prev(j) + dstOffsetX, i + dstOffsetY) + 2] == uint8(transformColor(src.At(prev(j), i)).B >> 8) && dstImg.Pix[dstImg.PixOffset(prev(j) + dstOffsetX, i + dstOffsetY) + 3] == uint8(transformColor(src.At(prev(j), i)).A >> 8)
+//@   loop 2 step [C10,C11] only-that-pixel: forall o int :: o < dstImg.PixOffset(prev(j) + dstOffsetX, i + dstOffsetY) || o >= dstImg.PixOffset(prev(j) + dstOffsetX, i + dstOffsetY) + 4 ==> dstImg.Pix[o] == prev(dstImg.Pix[o])
+//@   loop 2 step [C10] next-column: j == prev(j) + 1
+//@   loop 2 decreases bounds.Max.X - j
+//@   ensures [C10] returns: true
+
+// Iteration space of the workers (mathematical integers): rows y0 + w + k*n for worker w of n
+// partition [y0, y1).
+//@ lemma [C10,C11,C15] rows-covered mode=real (y0 mathint, y mathint, n mathint): n >= 1 && y0 <= y ==> 0 <= (y - y0) % n && (y - y0) % n < n && (y - y0) / n >= 0 && y == y0 + (y - y0) % n + ((y - y0) / n) * n
+//@ lemma [C10,C11,C15] rows-disjoint mode=real (y0 mathint, n mathint, w1 mathint, k1 mathint, w2 mathint, k2 mathint): n >= 1 && 0 <= w1 && w1 < n && 0 <= w2 && w2 < n && k1 >= 0 && k2 >= 0 && y0 + w1 + k1*n == y0 + w2 + k2*n ==> w1 == w2 && k1 == k2
